@@ -37,10 +37,11 @@ func fqRead(data []byte) (items []fqItem, panicked bool) {
 	items = []fqItem{}
 	var kept []*fastq.Fastq // nil = error item; records are projected after the iteration (they must stay what they were)
 	panicked, _ = catch(func() {
-		if failedReadsFirst {
-			for _, t := range malformedTexts["fastq"] {
-				for range fastq.Reader(strings.NewReader(t)) {
-				}
+		if failedReadsFirst { // (one malformed text before each recorded read, in turn: a pool hands back what was put last)
+			ts := malformedTexts["fastq"]
+			t := ts[malformedNext%len(ts)]
+			malformedNext++
+			for range fastq.Reader(strings.NewReader(t)) {
 			}
 		}
 		seq := fastq.Reader(deliver(data))
